@@ -37,6 +37,8 @@ INFO = {
         "priorities/associativities are assigned to Production.prior/.assoc of a grammar parsed once (the meta-data front "
         "end is checked natively, not symbolically)",
         "grammar.productions[0].rhs is restored at the start of every path (an aborted path may leave it swapped)",
+        "native replay of a counterexample tries two members of its weak-ordering class: the solver's values and the same + 1000 "
+        "(distinct int objects, as parsed from grammar text)",
     ],
 }
 
@@ -177,6 +179,18 @@ def build_ops(params, symbolic):
     stats = {}
 
     def body(ps):
+        if not symbolic and not params.get("_shifted"):
+            # Native replay: a counterexample stands for its weak ordering of the priorities, so two members of
+            # the class are tried - the solver's values and the same values + 1000 (distinct int objects, as the
+            # grammar front end produces for every priority it parses; small ints are shared by CPython).
+            params["_shifted"] = True
+            try:
+                r = body(ps)
+                if r is not True and r is not None:
+                    return r
+                return body([int(str(p + 1000)) for p in ps])
+            finally:
+                params.pop("_shifted", None)
         if tie_problem:
             return tie_problem
         grammar.productions[0].rhs = saved_rhs
